@@ -185,6 +185,21 @@ def run(chk):
     chk.saw(omr)
     puts = find_calls(omr.node, "self.responses.put")
     chk.check(len(puts) == 1 and [src(a) for a in puts[0].args] == ["bytes(data)"], "R4", f"{L}:LssMaster.on_message_received | queues a copy", omr.loc(), f"{[src(c) for c in puts]}")
+    # every response a slave may send (CiA 305: the confirmed services answer with their own specifier, selective switch with 0x44,
+    # fast scan with 0x4F) is queued: no early exit of on_message_received is taken for such a frame
+    fomr = ff_for(chk, omr, "C18.R4")
+    legal_cs = sorted({0x11, 0x13, 0x17, O.LSS_CS["switch_selective_response"], O.LSS_CS["identify_slave"], 0x5A, 0x5B, 0x5C, 0x5D, 0x5E})
+    from .common import conj_of_facts
+    dropped = None
+    for r_ in [n for n in own_nodes(omr.node) if isinstance(n, ast.Return)]:
+        g_ = conj_of_facts(fomr.facts_at(r_))
+        for cs_ in legal_cs:
+            v_ = folder.try_fold(g_, Scope(omr.mod, omr.cls, {omr.params[1]: O.LSS_RX, omr.params[2]: bytes([cs_, 0, 0, 0, 0, 0, 0, 0]), omr.params[3]: 0.0}), None)
+            if v_:
+                dropped = dropped or (r_, cs_)
+    chk.check(dropped is None, "R4", f"{L}:LssMaster.on_message_received | every LSS response is queued", omr.loc(dropped[0]) if dropped else omr.loc(),
+              f"a response with command specifier {dropped[1]:#04x} leaves through `{src(dropped[0])}` without being queued: the request it answers times out with "
+              f"'No LSS response received'" if dropped else "", f"early exits evaluated for specifiers {[hex(c) for c in legal_cs]}")
     ni = repo.func(NET, "Network.__init__", "C18.R4")
     chk.saw(ni)
     subs = [c for c in find_calls(ni.node, "self.subscribe") if [src(a) for a in c.args] == ["self.lss.LSS_RX_COBID", "self.lss.on_message_received"]]
